@@ -30,9 +30,37 @@ func (m *Model) modsFor(c *ssa.CallCommon) []string {
 var models = map[string]*Model{}
 var invokeModels = map[string]*Model{}
 
+var gonumStaticModel = &Model{Assumption: "A-GONUM", Mods: []string{"next"}, Apply: func(e *Exec, f *ssa.Function, c *ssa.CallCommon, args []Val) Val {
+	if f.Signature.Recv() != nil && len(args) > 0 {
+		recv := e.toTerm(args[0], c.Args[0].Type())
+		if _, isPtr := c.Args[0].Type().Underlying().(*types.Pointer); isPtr {
+			e.safety("nilderef", Neq(recv, IntLit(0)))
+		}
+	}
+	return e.gonumResult(f.Name(), f.Signature.Results())
+}}
+
+func gonumFunc(f *ssa.Function) bool {
+	if f.Pkg != nil {
+		return isGonumPath(f.Pkg.Pkg.Path())
+	}
+	if o := f.Origin(); o != nil && o.Pkg != nil {
+		return isGonumPath(o.Pkg.Pkg.Path())
+	}
+	if f.Signature.Recv() != nil {
+		if n, ok := derefNamed(f.Signature.Recv().Type()); ok && n.Obj().Pkg() != nil {
+			return isGonumPath(n.Obj().Pkg().Path())
+		}
+	}
+	return false
+}
+
 func lookupModel(f *ssa.Function) *Model {
 	if m, ok := models[fullName(f)]; ok {
 		return m
+	}
+	if gonumFunc(f) {
+		return gonumStaticModel
 	}
 	// enum String() methods of the proto package
 	if f.Signature.Recv() != nil && f.Name() == "String" && f.Pkg != nil && f.Pkg.Pkg.Path() == "github.com/openfga/api/proto/openfga/v1" {
@@ -43,9 +71,78 @@ func lookupModel(f *ssa.Function) *Model {
 	return nil
 }
 
+func isGonumPath(path string) bool { return strings.HasPrefix(path, "gonum.org/v1/gonum/") }
+
+// gonumResult: A-GONUM (assumed contract of the gonum graph packages): a call writes only gonum's own memory (the
+// caller's heap is untouched), returns fresh unconstrained values, and returns non-nil graphs, nodes, lines, edges and
+// iterators - except Node(id)/Line lookups, which may be nil for an absent element. Nothing is assumed about WHICH
+// elements come back (no "returns what was added").
+func (e *Exec) gonumResult(name string, res *types.Tuple) Val {
+	e.root().Assumed["A-GONUM"] = true
+	mkOne := func(t types.Type) Val {
+		mayBeNil := name == "Node" || name == "Edge" && false
+		switch u := t.Underlying().(type) {
+		case *types.Pointer:
+			if !mayBeNil {
+				r := e.alloc()
+				e.assume(Implies(e.guard(), Eq(RType(r), tagOf(u.Elem()))))
+				return r
+			}
+		case *types.Interface:
+			v := Fresh("gonum$"+name, SIface)
+			e.assumeWF(v, t, e.curState)
+			if !mayBeNil {
+				e.assume(Implies(e.guard(), And(Neq(ITag(v), IntLit(0)), Neq(IVal(v), IntLit(0)))))
+			}
+			return v
+		case *types.Slice:
+			v := Fresh("gonum$"+name, SSlice)
+			e.assumeWF(v, t, e.curState)
+			if name == "DirectedCyclesIn" {
+				// every node list of the result is a well-formed slice of non-nil nodes
+				inner, ok := u.Elem().Underlying().(*types.Slice)
+				if ok {
+					bi, bj := BoundVar("i", SInt), BoundVar("j", SInt)
+					el := e.elemAt(e.curState, v, bi, SSlice)
+					nd := e.elemAt(e.curState, el, bj, sortOf(inner.Elem()))
+					e.assume(Implies(e.guard(), Forall([]*Term{bi}, Implies(And(Le(IntLit(0), bi), Lt(bi, SLen(v))),
+						And(wfTerm(el, u.Elem(), e.curState.next),
+							Forall([]*Term{bj}, Implies(And(Le(IntLit(0), bj), Lt(bj, SLen(el))), And(Neq(ITag(nd), IntLit(0)), Neq(IVal(nd), IntLit(0)))), []*Term{nd}))), []*Term{el})))
+				}
+			}
+			return v
+		}
+		v := Fresh("gonum$"+name, sortOf(t))
+		e.assumeWF(v, t, e.curState)
+		return v
+	}
+	switch res.Len() {
+	case 0:
+		return nil
+	case 1:
+		return mkOne(res.At(0).Type())
+	}
+	out := make(Tuple, res.Len())
+	for i := range out {
+		out[i] = mkOne(res.At(i).Type())
+	}
+	return out
+}
+
+var gonumInvokeModel = &Model{Assumption: "A-GONUM", Mods: []string{"next"}, ApplyInvoke: func(e *Exec, c *ssa.CallCommon, recv *Term, args []Val) Val {
+	e.safety("nilderef", Neq(ITag(recv), IntLit(0)))
+	return e.gonumResult(c.Method.Name(), c.Signature().Results())
+}}
+
 func lookupInvokeModel(c *ssa.CallCommon) *Model {
 	name := c.Method.Name()
 	recvT := c.Value.Type().String()
+	if strings.Contains(recvT, "gonum.org/v1/gonum/") {
+		return gonumInvokeModel
+	}
+	if pk := c.Method.Pkg(); pk != nil && isGonumPath(pk.Path()) {
+		return gonumInvokeModel
+	}
 	if m, ok := invokeModels[recvT+"."+name]; ok {
 		return m
 	}
@@ -974,11 +1071,18 @@ func (r *Exec) noteGlobal(g *ssa.Global, c *Term) {
 // initialiser: `var X = errors.New(..)` are non-nil, pairwise distinct, wrap only themselves; `fmt.Errorf("%w", Y)`
 // wraps Y.
 func globalFacts(p *Program, g *ssa.Global, c *Term) []*Term {
+	var facts []*Term
+	if isAntlrPkg(g.Pkg.Pkg.Path()) {
+		// A-ANTLR-RT: pointer-typed package-level objects of the runtime (ParseTreeWalkerDefault = NewParseTreeWalker())
+		// are non-nil; the runtime's initialiser is not loaded from source
+		if _, isPtr := g.Type().(*types.Pointer).Elem().Underlying().(*types.Pointer); isPtr {
+			facts = append(facts, Neq(c, IntLit(0)))
+		}
+	}
 	init := g.Pkg.Func("init")
 	if init == nil {
-		return nil
+		return facts
 	}
-	var facts []*Term
 	for _, b := range init.Blocks {
 		for _, in := range b.Instrs {
 			st, ok := in.(*ssa.Store)
@@ -991,6 +1095,11 @@ func globalFacts(p *Program, g *ssa.Global, c *Term) []*Term {
 			}
 			callee, ok := call.Call.Value.(*ssa.Function)
 			if !ok {
+				continue
+			}
+			if antlrConstructor(callee) && c.Sort.Base() == SInt {
+				// A-ANTLR-RT: a package-level object of the runtime built by its constructor (ParseTreeWalkerDefault) is non-nil
+				facts = append(facts, Neq(c, IntLit(0)))
 				continue
 			}
 			switch fullName(callee) {
@@ -1047,29 +1156,35 @@ func globalIndex(g *ssa.Global) int {
 	return h
 }
 
-// usedByCall: value u flows (through MakeInterface and a varargs store) into call within the same block.
+// usedByCall: value u flows (through MakeInterface / ChangeInterface and a varargs store) into call.
 func usedByCall(u ssa.Value, call *ssa.Call) bool {
 	refs := u.Referrers()
 	if refs == nil {
 		return false
 	}
 	for _, r := range *refs {
-		if mi, ok := r.(*ssa.MakeInterface); ok {
-			if mrefs := mi.Referrers(); mrefs != nil {
-				for _, r2 := range *mrefs {
-					if st, ok := r2.(*ssa.Store); ok {
-						if ia, ok := st.Addr.(*ssa.IndexAddr); ok {
-							if al, ok := ia.X.(*ssa.Alloc); ok {
-								// the varargs array is sliced and passed to call
-								if arefs := al.Referrers(); arefs != nil {
-									for _, r3 := range *arefs {
-										if sl, ok := r3.(*ssa.Slice); ok {
-											for _, a := range call.Call.Args {
-												if a == ssa.Value(sl) {
-													return true
-												}
-											}
-										}
+		switch x := r.(type) {
+		case *ssa.MakeInterface:
+			if usedByCall(x, call) {
+				return true
+			}
+		case *ssa.ChangeInterface:
+			if usedByCall(x, call) {
+				return true
+			}
+		case *ssa.Store:
+			if x.Val != u {
+				continue
+			}
+			if ia, ok := x.Addr.(*ssa.IndexAddr); ok {
+				if al, ok := ia.X.(*ssa.Alloc); ok {
+					// the varargs array is sliced and passed to call
+					if arefs := al.Referrers(); arefs != nil {
+						for _, r3 := range *arefs {
+							if sl, ok := r3.(*ssa.Slice); ok {
+								for _, a := range call.Call.Args {
+									if a == ssa.Value(sl) {
+										return true
 									}
 								}
 							}
